@@ -104,6 +104,28 @@ def _arglist_start(hdr):
     raise MirError("cannot find argument list in: " + hdr[:120])
 
 
+def _last_segment(path):
+    """`index::btree::<impl at ...>::leaf_lower_bound` -> `leaf_lower_bound` (generic arguments stripped)."""
+    depth, cur, segs = 0, "", []
+    i = 0
+    while i < len(path):
+        ch = path[i]
+        if ch in "<(":
+            depth += 1
+        elif ch in ">)":
+            depth -= 1
+        if depth == 0 and path.startswith("::", i):
+            segs.append(cur)
+            cur = ""
+            i += 2
+            continue
+        cur += ch
+        i += 1
+    segs.append(cur)
+    segs = [x for x in segs if x and not x.startswith("<")]
+    return segs[-1] if segs else path
+
+
 def split_top(s, sep):
     """Split at `sep` occurring at nesting depth 0 of () <> [] {} (ignoring the `->` arrow)."""
     out, depth, cur = [], 0, ""
@@ -135,9 +157,12 @@ class MirFile:
         with open(path) as f:
             self.lines = f.read().split("\n")
         self.index = {}
+        self.by_name = {}
+        self._fn_cache = {}
         for i, l in enumerate(self.lines):
             if l.startswith("fn ") and l.endswith("{"):
                 self.index.setdefault(l, i)
+                self.by_name.setdefault(_last_segment(l[3:_arglist_start(l)]), []).append(l)
 
     def find(self, header_regex, which=0):
         rx = re.compile(header_regex)
@@ -153,13 +178,92 @@ class MirFile:
             j += 1
         return Function(h, self.lines[i:j + 1])
 
+    def resolve_callee(self, callee):
+        """Function object for a call-site callee text such as `evaluator::order_compare`, `Page::<'_>::leaf_lower_bound`,
+        `compare_sort_keys`; None for trait-qualified (`<T as Trait>::m`), closures and functions outside the dump."""
+        c = callee.strip()
+        if c.startswith("<") or "{closure" in c:
+            return None
+        c = re.sub(r"::<[^<>]*(?:<[^<>]*>[^<>]*)*>", "", c)
+        name = c.split("::")[-1]
+        cands = [h for h in self.by_name.get(name, []) if "{closure" not in h.split("(")[0]]
+        if not cands:
+            return None
+        if len(cands) > 1:
+            hints = [seg for seg in c.split("::")[:-1] if seg]
+            scored = sorted(((sum(1 for hseg in hints if hseg in h), h) for h in cands), reverse=True)
+            if len(scored) > 1 and scored[0][0] == scored[1][0]:
+                return None
+            cands = [scored[0][1]]
+        h = cands[0]
+        if h not in self._fn_cache:
+            i = self.index[h]
+            j = i
+            while self.lines[j] != "}":
+                j += 1
+            self._fn_cache[h] = Function(h, self.lines[i:j + 1])
+        return self._fn_cache[h]
+
+    def resolve_closure(self, loc):
+        """Function object of the closure defined at `loc` (the `{closure@file:line:col: line:col}` text of its type)."""
+        key = ("closure", loc)
+        if key in self._fn_cache:
+            return self._fn_cache[key]
+        hit = None
+        needle = "{closure@" + loc + "}"
+        for h, i in self.index.items():
+            if "{closure#" in h.split("(")[0] and needle in h:
+                args = h[_arglist_start(h):]
+                first = split_top(args[1:], ",")[0] if len(args) > 1 else ""
+                if needle in first:
+                    hit = h
+                    break
+        fn = None
+        if hit is not None:
+            i = self.index[hit]
+            j = i
+            while self.lines[j] != "}":
+                j += 1
+            fn = Function(hit, self.lines[i:j + 1])
+        self._fn_cache[key] = fn
+        return fn
+
+    def promoted_value(self, fn, k):
+        """The value a `promoted[k]` constant of function `fn` refers to: ('enum', Variant) | ('bytes', b'..') | None."""
+        owner = fn.header[3:].split("(")[0]
+        tail = "::".join(owner.split("::")[-2:]) if "{closure" in owner else _last_segment(owner)
+        key = (tail, k)
+        if key in self._fn_cache:
+            return self._fn_cache[key]
+        if not hasattr(self, "_text"):
+            self._text = "\n".join(self.lines)
+        mm = re.search(r"\nconst (?:\S*::)?%s::promoted\[%s\]: [^=]*= \{(.*?)\n\}" % (re.escape(tail), k), self._text, re.S)
+        val = None
+        if mm:
+            body = mm.group(1)
+            e = re.search(r"_1 = (?:[\w:]+::)?([A-Z]\w*);", body)
+            b = re.search(r'const b"((?:[^"\\]|\\.)*)"', body)
+            r = re.search(r"_1 = const ([\w:]+);", body)
+            if e:
+                val = ("enum", e.group(1))
+            elif b:
+                val = ("bytes", b.group(1).encode().decode("unicode_escape").encode("latin1"))
+            elif r:
+                val = ("named", r.group(1))
+        self._fn_cache[key] = val
+        return val
+
     def const_value(self, name_regex):
         """Evaluate a simple `const NAME: T = { ... }` item: supports literal and one checked Mul/Add of literals."""
         rx1 = re.compile(r"^const (?:\S*::)?(%s): (\w+) = const (-?\d+)_\w+;$" % name_regex)
+        rxf = re.compile(r"^const (?:\S*::)?(%s): (f64) = const (-?[0-9.]+(?:[eE][-+]?\d+)?)f64;$" % name_regex)
         for l in self.lines:
             m = rx1.match(l)
             if m:
                 return int(m.group(3)), m.group(2)
+            m = rxf.match(l)
+            if m:
+                return float(m.group(3)), "f64"
         rx = re.compile(r"^const (?:\S*::)?(%s): (\w+) = \{$" % name_regex)
         for i, l in enumerate(self.lines):
             m = rx.match(l)
